@@ -32,8 +32,13 @@ def make_tree(case, rng):
     from nutree.typed_tree import TypedTree
 
     f = gen.decode(case["f"])
-    typed = case.get("cls") == "typed"
-    t = (TypedTree if typed else Tree)("t")
+    typed = case.get("cls") in ("typed", "ext_typed")
+    if case.get("cls", "").startswith("ext"):
+        # user-extension classes: always-falsy nodes with a `name` of their own; relationship queries must not care
+        X = gen.ext_classes()
+        t = (X["XTypedTree"] if typed else X["XTree"])("t")
+    else:
+        t = (TypedTree if typed else Tree)("t")
     n = gen.size(f)
     lab = case["lab"]
     # two-character kinds built at run time: equal strings, distinct objects
@@ -58,7 +63,7 @@ def ident(lst):
 def run_case(case, res):
     rng = rng_for(case.get("seed", 0), "c10", case["f"], case["lab"])
     t, nodes = make_tree(case, rng)
-    typed = case.get("cls") == "typed"
+    typed = case.get("cls") in ("typed", "ext_typed")
     f = gen.decode(case["f"])
     if case.get("prelude"):
         nodes = history_prelude(t, nodes, rng_for(case.get("seed", 0), "c10-prelude", case["f"], case["lab"]), typed)
@@ -181,8 +186,8 @@ def run_case(case, res):
                 chk("get_parent_list(add_self)", x.get_parent_list(add_self=True), A + [x], x)
                 chk("get_parent_list(bottom_up)", x.get_parent_list(bottom_up=True), A[::-1], x)
                 chk("get_parent_list(add_self,bottom_up)", x.get_parent_list(add_self=True, bottom_up=True), [x] + A[::-1], x)
-                chk("path", x.path, "/" + "/".join(str(a.data) for a in A + [x]), x)
-                chk("get_path(add_self=False)", x.get_path(add_self=False), "/" + "/".join(str(a.data) for a in A), x)
+                chk("path", x.path, "/" + "/".join(a.name for a in A + [x]), x)
+                chk("get_path(add_self=False)", x.get_path(add_self=False), "/" + "/".join(a.name for a in A), x)
                 chk("get_path(sep)", x.get_path(separator="|", repr="<{node.data}>"), "|" + "|".join(f"<{a.data}>" for a in A + [x]), x)
                 D = desc(x)
                 chk("count_descendants", x.count_descendants(), len(D), x)
@@ -292,7 +297,7 @@ def run_shard(spec, res):
                 if k % NSHARDS != spec["i"]:
                     continue
                 for lab in LABELINGS:
-                    for cls in (["plain", "typed"] if n <= 6 else ["plain"]):
+                    for cls in (["plain", "typed", "ext", "ext_typed"] if n <= 5 else ["plain", "typed"] if n <= 6 else ["plain"]):
                         run_case({"cls": cls, "f": gen.code(f), "lab": lab, "seed": seed}, res)
                         if 1 <= n <= 6:
                             run_case({"cls": cls, "f": gen.code(f), "lab": lab, "seed": seed, "prelude": True}, res)
@@ -304,7 +309,7 @@ def run_shard(spec, res):
         rng = rng_for(seed, "c10-rand", spec["i"])
         for j in range(spec["count"]):
             f = gen.random_forest(rng, rng.randint(8, 30))
-            run_case({"cls": rng.choice(["plain", "typed"]), "f": gen.code(f), "lab": rng.choice(LABELINGS), "seed": seed,
+            run_case({"cls": rng.choice(["plain", "typed", "ext", "ext_typed"]), "f": gen.code(f), "lab": rng.choice(LABELINGS), "seed": seed,
                       "prelude": rng.random() < 0.5}, res)
             if res.expired():
                 break
